@@ -2,11 +2,10 @@ SPECIFICATION Spec
 CONSTANTS
   MaxLen = 6
   StepMode = FALSE
-  DeclSet = {"id", "idna", "str", "strna", "url", "urlna", "urlq", "list", "call"}
-  CpropSet = {"plain", "nl", "na"}
-  CmtSet = {"one", "multi", "na"}
+  DeclSet = {"strna", "list", "urlq"}
+  CpropSet = {"nl"}
+  CmtSet = {"multi"}
   RuleSet = {"asc", "na"}
 INVARIANT DesignAccepted
-INVARIANT Sensitive
 INVARIANT EmitVec
 CHECK_DEADLOCK FALSE
